@@ -30,7 +30,9 @@ where
     let results: Mutex<Vec<A>> = Mutex::new(vec![]);
     let w = workers();
     let chunk = ((n / (w * 64)).max(1)).min(4096);
-    let rot = if n == 0 { 0 } else { (seed as usize).wrapping_mul(2654435761) % n };
+    // the seed rotates the starting index only where no wall-clock cap applies: under a cap the states are taken in their
+    // natural (priority) order, so that a loaded machine cuts the tail - the largest, last-listed family - and nothing else
+    let rot = if n == 0 || deadline.is_some() { 0 } else { (seed as usize).wrapping_mul(2654435761) % n };
     std::thread::scope(|s| {
         for _ in 0..w {
             s.spawn(|| {
